@@ -232,7 +232,7 @@ def run_ga(case, ctx):
         control, on = 1.0, True
     nontrivial = (not on) or (control >= 0.05 and len(Gp) > 1)
     return result(key, viols, nontrivial, evals=evals, noise=noise, obs={"wrapper_executions": evals},
-                  hist={"kind": "ga", "D": D, "G": gname, "on": on, "square": len(set(sp)) == 1, "flag_history": f"always={always},toggles={key.get('toggles')}"}, sample={"cfg": key, "control_defect_inner": control, "defect": noise})
+                  hist={"kind": "ga", "D": D, "G": gname, "on": on, "operator_list": key.get("ops", "as generated (identity first)"), "square": len(set(sp)) == 1, "flag_history": f"always={always},toggles={key.get('toggles')}"}, sample={"cfg": key, "control_defect_inner": control, "defect": noise})
 
 
 # ---- Climate1D -----------------------------------------------------------------------------------
@@ -384,7 +384,11 @@ def finalize(tier, results, obs, hist, metas):
             calls[k] = calls.get(k, 0) + v
     need = ["GroupAverage.__call__", "Climate1D.__call__", "Climate1D.to1d", "Climate1D.from1d"]
     missing = [k for k in need if not calls.get(k)]
-    return {"probe_calls": calls}, ([f"probes never fired: {missing}"] if missing else [])
+    why = [f"probes never fired: {missing}"] if missing else []
+    # a workload element named in the RULE needs its own observation (round 8): shuffled operator lists must have run
+    if not (hist.get("operator_list") or {}).get("shuffled, identity not first"):
+        why.append("no group-average case with a shuffled operator list was observed")
+    return {"probe_calls": calls}, why
 
 
 def teardown(ctx):
